@@ -12,6 +12,7 @@ import (
 	"encoding/json"
 	"fmt"
 	"os"
+	"runtime"
 	"strconv"
 	"testing"
 	"time"
@@ -131,6 +132,7 @@ func TestSim(t *testing.T) {
 
 			return res
 		}
+		n := 0
 	runs:
 		for run := from; run < to; run += step {
 			if budget > 0 && time.Since(start) > budget {
@@ -150,6 +152,18 @@ func TestSim(t *testing.T) {
 				}
 			}
 			subFrom = 0
+			// goroutines and buffers that runs leave behind in ended bubbles add up over a long
+			// batch: past a memory mark the process hands over to a fresh one
+			if n++; n%32 == 0 {
+				var ms runtime.MemStats
+				runtime.ReadMemStats(&ms)
+				if ms.Sys > uint64(envInt("VSIM_RECYCLE_MB", 1200))<<20 {
+					emit(rec{Ev: "recycle", Run: run + step})
+					_ = w.Flush()
+
+					return
+				}
+			}
 		}
 		emit(rec{Ev: "done"})
 	case "replay", "shrink":
